@@ -1,0 +1,83 @@
+//go:build verif
+
+package transport
+
+// Hooks for the verification harness (/verif). Built only with -tags verif.
+// They expose unexported state and entry points; they contain no protocol logic.
+
+import (
+	"crypto/rand"
+	"net"
+)
+
+// VerifSessionInfo is a snapshot of a session's secret and bookkeeping state.
+type VerifSessionInfo struct {
+	SessionID         SessionID
+	ClientToServerKey [KeyLen]byte
+	ServerToClientKey [KeyLen]byte
+	Count             uint64
+	RemoteAddr        *net.UDPAddr
+	Closed            bool
+	IsHiddenHS        bool
+}
+
+func verifSnapshot(ss *SessionState) *VerifSessionInfo {
+	if ss == nil {
+		return nil
+	}
+	ss.m.Lock()
+	defer ss.m.Unlock()
+	return &VerifSessionInfo{
+		SessionID:         ss.sessionID,
+		ClientToServerKey: ss.clientToServerKey,
+		ServerToClientKey: ss.serverToClientKey,
+		Count:             ss.count,
+		RemoteAddr:        ss.remoteAddr,
+		Closed:            ss.handleState == closed,
+		IsHiddenHS:        ss.isHiddenHS,
+	}
+}
+
+// VerifSession returns the session state behind a server-side Handle.
+func (c *Handle) VerifSession() *VerifSessionInfo { return verifSnapshot(c.ss) }
+
+// VerifSession returns the client's session state (nil before the handshake completed).
+func (c *Client) VerifSession() *VerifSessionInfo { return verifSnapshot(c.ss) }
+
+// VerifHandle returns the client's Handle (nil before the handshake completed).
+func (c *Client) VerifHandle() *Handle {
+	if c.ss == nil {
+		return nil
+	}
+	return c.ss.handle
+}
+
+// VerifSendControl seals and sends a control message with the given body on the session.
+func (c *Handle) VerifSendControl(body []byte) error { return c.send(MessageTypeControl, body) }
+
+// VerifTableSizes returns the number of stored handshakes, sessions and pending connections.
+func (s *Server) VerifTableSizes() (handshakes, sessions, pending int) {
+	s.m.RLock()
+	defer s.m.RUnlock()
+	return len(s.handshakes), len(s.sessions), len(s.pendingConnections)
+}
+
+// VerifSessionIDs lists the session identifiers the server currently tracks.
+func (s *Server) VerifSessionIDs() []SessionID {
+	s.m.RLock()
+	defer s.m.RUnlock()
+	out := make([]SessionID, 0, len(s.sessions))
+	for id := range s.sessions {
+		out = append(out, id)
+	}
+	return out
+}
+
+// VerifRotateCookieKey does what the cookie ticker does every two minutes.
+func (s *Server) VerifRotateCookieKey() {
+	s.cookieLock.Lock()
+	defer s.cookieLock.Unlock()
+	if _, err := rand.Read(s.cookieKey[:]); err != nil {
+		panic(err)
+	}
+}
